@@ -2,6 +2,7 @@
 from __future__ import annotations
 
 import atexit
+import os
 import re
 import shutil
 import tempfile
@@ -149,7 +150,8 @@ _P = {}
 
 
 def _proj():
-    if "d" not in _P:
+    if _P.get("pid") != os.getpid():
+        _P["pid"] = os.getpid()
         d = tempfile.mkdtemp(prefix="c04proj-")
         atexit.register(shutil.rmtree, d, True)
         (Path(d) / ".git").mkdir()
